@@ -271,7 +271,9 @@ CLAIMS["C01"] = dict(
         "theorem, from a state with error mode off the parser implements the grammar without the alternatives mentioning invalid_ rules "
         "(also with the cache on: C01_cached_first_pass_...); second pass (C01_second_pass_implements_the_full_grammar, via "
         "C12_flag_on_equals_parser_without_guards): with error mode on it implements the full grammar when the invalid_ alternatives "
-        "carry their own action (bare ones are emitted with the UNREACHABLE filler). The "
+        "carry their own action (bare ones are emitted with the UNREACHABLE filler). pegen's OWN grammar (src/pegen/metagrammar.gram, "
+        "from which grammar_parser.py is generated) satisfies the instance condition of the widest theorem; evaluated on every run "
+        "together with the other shipped grammar files (6 of 14 inside). The "
         "condition is evaluated in Coq on the generator model's output for a floor of 21 action-free shapes (must hold) and for every "
         "explored grammar (coverage count in the evidence; all explored action-free random grammars are inside). Partial: "
         "left recursion, the second pass over bare invalid_ alternatives, LOCATIONS, forced items over nullable or forced operands, and the completeness "
